@@ -18,6 +18,12 @@ NOT_APPLICABLE = {
 }
 
 CHECKS = {
+    "C07": {
+        "level_text": "Proof over all flag combinations for unmentioned methods (loop-free, complete); the mentioned-but-unmatched case is bounded in the number of patterns (reported as bounded). Partial: only the runtime decision (eval_dyn); the generated arms that act on the decision are not covered.",
+        "design_ref": "DESIGN.md §4 C07",
+        "level_note": "Trusted: Kani/CBMC; no_std+spin-lock feature set for harnesses needing a SharedState; the generated code half is not applicable.",
+        "technique": "function contracts: Kani contract harnesses on eval_dyn (full-domain for the unmentioned table, bounded for the scan)",
+    },
     "C06": {
         "level_text": "Proof per catalogue instance over its whole argument domain (diagnostics off and on against an ordinary Rust match); the set of programs is a catalogue, so the claim is 'proof per instance, programs sampled'.",
         "design_ref": "DESIGN.md §4 C06",
